@@ -30,8 +30,16 @@ def run_case(chain_prefix, call, t):
     rep_r2, recv_abs2 = try_abs(am.a_schema, recv)
     ev = {"exc": exc, "unchanged": before_repr == after_repr and recv_abs == recv_abs2,
           "rep": False, "result": [], "hasfixed": False, "fixed_ok": True, "fixed": [],
-          "recv_real": recv_abs}
+          "recv_real": recv_abs, "usable": True}
     if exc == "":
+        # "or returns a schema": something that can at least be printed and validated against
+        try:
+            repr(result)
+            d42.validate(result, None)
+            if not isinstance(result, am._schema_base()):
+                ev["usable"] = False
+        except Exception:
+            ev["usable"] = False
         rep, res_abs = try_abs(am.a_schema, result)
         ev["rep"] = rep and rep_r
         ev["result"] = res_abs if ev["rep"] else []
